@@ -51,7 +51,7 @@ func genC13(rt *rapid.T) C13Case {
 	nm := rapid.IntRange(0, 2).Draw(rt, "nmut")
 	for i := 0; i < nm; i++ {
 		pool := []string{"op-target-unknown", "op-target-empty", "op-target-noplugin", "prefix-target-unknown", "path-target-differs", "update-interior", "update-nonmodel",
-			"key-mismatch", "key-name-wrong", "keys-dropped", "key-badchars", "delete-key-badchars", "override-unknown-target", "override-known-target", "target-removed", "ext-malformed", "no-ops", "more-ops", "second-target", "delete-nonmodel", "delete-textual-stub", "json-root", "json-at-path"}
+			"key-mismatch", "key-name-wrong", "keys-dropped", "key-badchars", "delete-key-badchars", "override-unknown-target", "override-known-target", "target-removed", "ext-malformed", "no-ops", "more-ops", "second-target", "delete-nonmodel", "delete-textual-stub", "json-root", "json-at-path", "json-root-many"}
 		// with a size limit a JSON-valued update counts with the values it expands to (the refusal's own text:
 		// "number of updates and deletes in a gNMI Set must not exceed ...")
 		m := pool[rapid.IntRange(0, len(pool)-1).Draw(rt, "mut")]
@@ -212,6 +212,13 @@ func applyC13Mutation(rt *rapid.T, s *SetSpec, m string) {
 			return
 		}
 		s.Ops = append(s.Ops, model.Op{Kind: "update", Target: firstTarget(s), Path: nil, Val: &j})
+	case "json-root-many":
+		// one operation, six values: what counts against a size limit is what the request CHANGES
+		j := model.Value{T: "json", S: c13JSONMany}
+		if len(s.PrefixElems) > 0 {
+			return
+		}
+		s.Ops = append(s.Ops, model.Op{Kind: "update", Target: firstTarget(s), Path: nil, Val: &j})
 	case "json-at-path":
 		j := model.Value{T: "json", S: `{"d":"jv"}`}
 		s.Ops = append(s.Ops, model.Op{Kind: "update", Target: firstTarget(s), Path: relTo(s, model.Parse("/a/c")), Val: &j})
@@ -255,6 +262,8 @@ var keyAllowed = regexp.MustCompile(`^[a-zA-Z0-9*._-]+$`)
 // independently of the code: it returns why the request must be refused before
 // being logged ("" = must be accepted) and, for accepted requests, the
 // resolved (target, absolute path, kind) set.
+const c13JSONMany = `{"a":{"b":"x","bc":"y","c":{"d":"jv","e":3}},"mtu":9,"mtux":1}`
+
 // c13JSONLeaves: the leaves (relative to the update's path) of the two JSON documents the mutations use.
 func c13JSONLeaves(doc string) []string {
 	switch doc {
@@ -262,6 +271,8 @@ func c13JSONLeaves(doc string) []string {
 		return []string{"/a/c/d", "/mtu"}
 	case `{"d":"jv"}`:
 		return []string{"/d"}
+	case c13JSONMany:
+		return []string{"/a/b", "/a/bc", "/a/c/d", "/a/c/e", "/mtu", "/mtux"}
 	}
 	return nil
 }
